@@ -301,6 +301,22 @@ def explore(roots, fixed, body, cap, hard_cap=None):
     return runs, counted, level, True
 
 
+def explore_by_root(roots, fixed, body, cap):
+    """Like explore(), but every root (scalar tuple) is explored on its own, in the given order (smallest tuples
+    first), to exhaustion or to its share of the budget that is left: share = remaining cap / remaining roots, so
+    what a small root does not use goes to the larger ones.  Runs that fall outside the contract are cheap (no kernel
+    call) and are bounded by 8 x share.  Returns (runs, counted, roots exhausted, all exhausted)."""
+    runs = counted = done = 0
+    n = len(roots)
+    for i, root in enumerate(roots):
+        share = max(1, (cap - counted) // (n - i))
+        r, c, _, ex = explore([root], fixed, body, share, hard_cap=8 * share)
+        runs += r
+        counted += c
+        done += 1 if ex else 0
+    return runs, counted, done, done == n
+
+
 # ----------------------------------------------------------------------------------------------------------
 # lazy arguments
 
